@@ -76,7 +76,29 @@ ASSUMPTIONS = c03.ASSUMPTIONS + [
     "threads of one executor line are joined before the next creation on another thread, except in the concurrent thread family, where only the multiset of priorities is predicted",
     "Treap::clone does not exist in the repository; the doubling family is compiled in through autoref specialisation and runs as soon as Treap<Item>: Clone holds"]
 
-shrink = c03.shrink
+
+
+def shrink(c):
+    """c03's shrinking (drop operations, ...); then simpler fault events: no concurrent thread, catch_unwind instead of a
+    worker thread, a smaller throw-away treap"""
+    out = c03.shrink(c)
+    ops = c["ops"]
+    for i, op in enumerate(ops):
+        if op[0] != "E":
+            continue
+        e, alts = op[1], []
+        if e["where"] in ("p", "q"):
+            alts.append(dict(e, where={"p": "c", "q": "t"}[e["where"]], q=0))
+        if e["where"] == "t":
+            alts.append(dict(e, where="c"))
+        if e["m"] > 2:
+            alts.append(dict(e, m=e["m"] // 2, pos=min(e["pos"], e["m"] // 2)))
+        if e["r"] > 1:
+            alts.append(dict(e, r=1))
+        for a in alts:
+            out.append(dict(c, ops=ops[:i] + [["E", a]] + ops[i + 1:]))
+    return out
+
 
 # ----------------------------------------------------------------------------- the modelled stream (python side)
 _STREAM = []
@@ -97,8 +119,78 @@ def stream(n):
 #                     the building blocks TreapNode::new + root field / TreapNode::{split_at, merge} (Fn / In); the Coq
 #                     history has the plain CFrom / CInsert
 
+# ["E", {event}]      a FAULT in user code inside a library call, on a throw-away treap (harness/crates/c03/src/fault.rs): an item type
+#                     whose update / push / size (or the split_by predicate) panics or re-enters the library in the middle of
+#                     insert_at / merge / split_at / split_by / remove_at / collect / first / last - under catch_unwind on the line's
+#                     thread (where = c), on a worker thread that dies (t), while another thread creates q nodes (p, q) - followed by
+#                     ONE probe draw.  No counterpart in the Coq history either: for the treaps of the history the event is a burn of
+#                     as many draws as it consumed (the m nodes of the throw-away treap, the node of the interrupted insert_at / the
+#                     from_item, the nodes a re-entrant callback created, the q nodes of the other thread, the probe); the token of the
+#                     event carries the probe's priority and is checked here against that draw of the modelled stream.
+#                     {"what", "where", "m", "pos", "cb": update|push|size|pred, "tid": "any" | "new" | id, "k", "act", "r", "q"}
+
 def has_burn(c):
-    return any(op[0] == "Z" for op in c["ops"])
+    """draws that no node of the Coq history gets (burnt draws, the draws of a fault event)"""
+    return any(op[0] in ("Z", "E") for op in c["ops"])
+
+
+def has_event(c):
+    return any(op[0] == "E" for op in c["ops"])
+
+
+CB_CODE = {"update": 0, "push": 1, "size": 2, "pred": 3}
+PANIC_ACTS = (0, 3, 4)          # the callback panics (after re-entering the library: 3, 4)
+REENTER_ACTS = (1, 2, 3, 4, 5)  # the callback creates r nodes itself (5: on a thread it spawns and joins)
+
+
+def ev(what, where, m, pos, cb="update", tid="any", k=1, act=0, r=0, q=0):
+    return {"what": what, "where": where, "m": m, "pos": pos, "cb": cb, "tid": tid, "k": k, "act": act, "r": r,
+            "q": q if where in ("p", "q") else 0}
+
+
+def event_token(e):
+    tid = {"any": -1, "new": e["m"]}.get(e["tid"], e["tid"])
+    return "E:%s:%s:%d:%d:%d:%d:%d:%d:%d:%d" % (e["what"], e["where"], e["m"], e["pos"], CB_CODE[e["cb"]], tid, e["k"], e["act"], e["r"], e["q"])
+
+
+def parse_event_token(tok):
+    f = tok.split(":")
+    m, tid = int(f[3]), int(f[6])
+    return ev(f[1], f[2], m, int(f[4]), {v: k for k, v in CB_CODE.items()}[int(f[5])],
+              "any" if tid < 0 else ("new" if tid == m else tid), int(f[7]), int(f[8]), int(f[9]), int(f[10]))
+
+
+def event_draws(e, tok, j):
+    """(draws consumed by the event whose token is `tok`, probe included, when j draws were made before it; the token is
+    consistent with the modelled stream?).  The draws made before the abnormal exit COUNT: the m nodes of the throw-away
+    treap, the new node of an insert_at that got as far as creating it (certain when the callback that fired involved the
+    new node; either way when an unrelated callback panicked), the from_item of a merge event, the r nodes a re-entrant
+    callback created (if it fired), the q nodes of the concurrent thread."""
+    created = {"ins": [1], "nod": [1], "mrg": [1]}.get(e["what"], [0])
+    f = tok.split(":")
+    good = len(f) == 4 and f[0] == "E" and all(x.isdigit() for x in f[1:])
+    fired, panicked, probe = (int(f[1]), int(f[2]), int(f[3])) if good else (0, 0, -1)
+    if good and panicked != (1 if (fired and e["act"] in PANIC_ACTS) else 0):
+        good = False            # a panic that did not come out of the library call, or one that nobody asked for
+    if e["what"] in ("ins", "nod") and panicked and e["tid"] != "new":
+        created = [0, 1]
+    base = e["m"] + (e["r"] * fired if e["act"] in REENTER_ACTS else 0) + e["q"]
+    for c in created:
+        d = base + c
+        if good and stream(j + d + 1)[j + d] == probe:
+            return d + 1, True
+    return base + max(created) + 1, False
+
+
+def op_tokens(obs):
+    """the per-operation tokens of an observation line ([] when the line panicked or hung)"""
+    so = split_obs(obs)
+    return [] if so is None else so[0]
+
+
+def split_obs(obs):
+    """c03.split_obs; a line killed by the executor's watchdog (`H`: hang) is no observation either"""
+    return None if obs.strip() == "H" else c03.split_obs(obs)
 
 
 def harness_line(c):
@@ -108,6 +200,9 @@ def harness_line(c):
         if op[0] == "Z":
             toks.append("Z:%d" % op[1])
             continue
+        if op[0] == "E":
+            toks.append(event_token(op[1]))
+            continue
         tok = c03.harness_line(dict(c, ops=[op])).split()[2]
         v = via.get(str(i))
         if v in ("t", "n") and op[0] in ("F", "I"):
@@ -116,13 +211,20 @@ def harness_line(c):
     return " ".join(toks)
 
 
-def case_prios(c):
-    """priority of every node creation that the Coq history sees, in order.  The j-th draw of a line (burnt draws
-    included) is stream[j]; a node whose priority is `n` (every node of a native case) keeps its draw."""
+def case_prios(c, toks=None, bad=None):
+    """priority of every node creation that the Coq history sees, in order.  The j-th draw of a line (burnt draws and the
+    draws of fault events included) is stream[j]; a node whose priority is `n` (every node of a native case) keeps its draw.
+    `toks`: the per-operation tokens of the observation (an event's token tells whether its callback fired and the probe);
+    `bad` collects the indices of events whose token contradicts the modelled stream."""
     ps, L, j = [], [], 0
-    for op in c["ops"]:
+    for i, op in enumerate(c["ops"]):
         if op[0] == "Z":
             j += op[1]
+        elif op[0] == "E":
+            d, good = event_draws(op[1], toks[i] if (toks and i < len(toks)) else "", j)
+            j += d
+            if not good and bad is not None:
+                bad.append(i)
         elif op[0] == "F":
             ps.append((j, op[2]))
             j += 1
@@ -139,7 +241,7 @@ def case_prios(c):
 
 
 def coq_ops(c):
-    return "[%s]" % "; ".join(c03.coq_op(op) for op in c["ops"] if op[0] != "Z")
+    return "[%s]" % "; ".join(c03.coq_op(op) for op in c["ops"] if op[0] not in ("Z", "E"))
 
 
 def coq_native(c):
@@ -329,6 +431,127 @@ def splitby_any(rng, kind, n):
     return {"kind": kind, "native": mode == "native", "mode": "splitby-any", "ops": ops}
 
 
+# ----------------------------------------------------------------------------- faults in user code inside a library call
+def fault_events(principal_only=False):
+    """the catalogue of events (see fault.rs).  PRINCIPAL: the first update() the new node of insert_at takes part in panics -
+    the node exists, its priority is drawn, the library is in the middle of its merges - under catch_unwind, on a worker
+    thread that dies, and while another thread is creating nodes.  NEIGHBOURS: the k-th update / push / size call of
+    insert_at (also through the building blocks), merge after from_item, split_at, split_by (also its predicate), remove_at,
+    collect, first, last; callbacks that RE-ENTER the library (create nodes, build and collect a treap, do so on a thread
+    they spawn and join) and then return or panic."""
+    out = []
+    shapes = ((1, 0), (1, 1), (2, 1), (5, 0), (5, 5), (8, 3), (8, 8))
+    for where in "ctpq":
+        for j, (m, pos) in enumerate(shapes):
+            out.append(ev("ins", where, m, pos, "update", "new", q=(64, 257, 1000)[j % 3]))
+    if principal_only:
+        return out
+    for what in ("ins", "nod"):
+        for cb in ("update", "push", "size"):
+            for k in (1, 2, 3, 5):
+                for where in ("c", "t"):
+                    out.append(ev(what, where, 7, (k * 3) % 8, cb, "any", k))
+        out.append(ev(what, "p", 6, 2, "push", "new", q=300))
+        out.append(ev(what, "q", 6, 6, "update", "any", 2, q=300))
+        out.append(ev(what, "c", 0, 0, "update", "any"))            # nothing to call back: the operation completes
+    for cb in ("update", "push"):
+        for k in (1, 2):
+            for pos in (0, 1):
+                for where in ("c", "t", "p"):
+                    out.append(ev("mrg", where, 6, pos, cb, "any", k, q=200))
+    for what, cbs in (("spl", ("push", "update", "size")), ("spb", ("pred", "push", "update")), ("rem", ("push", "update", "size")),
+                      ("col", ("push",)), ("fst", ("push",)), ("lst", ("push",))):
+        for cb in cbs:
+            for k in (1, 2, 4):
+                for where in ("c", "t"):
+                    out.append(ev(what, where, 9, (2 * k + 1) % 9, cb, "any", k))
+        out.append(ev(what, "q", 9, 4, cbs[0], "any", 1, q=150))
+    for act in (1, 2, 5, 3, 4):
+        for where in ("c", "t"):
+            for r in (1, 3):
+                out.append(ev("ins", where, 6, 3, "update", "new", 1, act, r))
+                out.append(ev("nod", where, 6, 6, "push", "any", 2, act, r))
+                out.append(ev("mrg", where, 6, r % 2, "update", "any", 1, act, r))
+                out.append(ev("rem", where, 6, 2, "update", "any", 2, act, r))
+            out.append(ev("spl", where, 6, 3, "push", "any", 1, act, 2))
+            out.append(ev("spb", where, 6, 3, "pred", "any", 2, act, 2))
+            out.append(ev("col", where, 6, 0, "push", "any", 3, act, 2))
+        out.append(ev("ins", "p", 6, 0, "update", "new", 1, act, 2, q=120))
+    return out
+
+
+def is_reentrant(e):
+    return e["act"] in REENTER_ACTS
+
+
+def fault_hist(e, fam, n, kind, at="start", k=3, pre=0):
+    """the event, then (at = "mid": half before, half after) a family history with the generator's own priorities on the line's
+    own thread; `pre`: burnt draws first.  The treaps of the history never meet the event's throw-away treap."""
+    c = fam_hist(fam, n, kind, "native", k=k)
+    ops = c["ops"]
+    i = 0 if at == "start" else len(ops) // 2
+    c["ops"] = ([["Z", pre]] if pre else []) + ops[:i] + [["E", e]] + ops[i:]
+    c["mode"] = "fault-%s-%s-%s" % (e["what"], e["where"], ("reenter%d" % e["act"]) if e["act"] else e["cb"])
+    return c
+
+
+def with_events(rng, c, events):
+    """one to three fault events at random places of a history (in front of a creation, so that something is created afterwards)"""
+    at = [i for i, op in enumerate(c["ops"]) if op[0] in ("F", "I", "V")]
+    if not at:
+        return c
+    picks = sorted({rng.choice(at) for _ in range(rng.choice([1, 1, 2, 3]))}, reverse=True)
+    ops = list(c["ops"])
+    via = c.get("via") or {}
+    for i in picks:
+        ops.insert(i, ["E", rng.choice(events)])
+        via = {str(int(k) + (1 if int(k) >= i else 0)): v for k, v in via.items()}
+    c = dict(c, ops=ops, mode=c.get("mode", "native") + "+fault")
+    if via:
+        c["via"] = via
+    return c
+
+
+FAULT_AFTER = ["append", "front", "mergebuild", "deque", "middle", "mergefront", "roundrobin", "blocks", "setscatter", "rotate"]
+
+
+def fault_cases(r2, quick):
+    evs = fault_events()
+    out = []
+    if quick:
+        # every principal event, a spread of the neighbours (re-entrant ones: short histories, a hang costs the watchdog's time)
+        rest = evs[28:]
+        off = r2.below(3)
+
+        def pick(j, e):
+            if is_reentrant(e):
+                # under a lock held across the callback every re-entrant insert_at event costs the watchdog's time: one per kind of re-entry and place
+                return (e["what"] == "ins" and e["tid"] == "new" and e["r"] == 1 and e["where"] in ("c", "t")) or j % 4 == off
+            return j % 3 == off
+        chosen = evs[:28] + [e for j, e in enumerate(rest) if pick(j, e)]
+    else:
+        chosen = evs
+    for j, e in enumerate(chosen):
+        fam = FAULT_AFTER[j % 3] if (quick or j % 2 == 0) else FAULT_AFTER[j % len(FAULT_AFTER)]
+        n = (6 if is_reentrant(e) else (12, 25, 40)[j % 3]) if quick else (8 if (is_reentrant(e) and j % 4) else (20, 60, 150)[j % 3])
+        out.append(fault_hist(e, fam, n, j % 2, at=("start", "mid")[(j // 3) % 2], k=(3, 4)[j % 2], pre=(0, 0, 30917, 5)[j % 4]))
+    # larger fresh treaps after the principal events; several events in one line
+    principal = evs[:28]
+    for j, (fam, n) in enumerate(((("append", 300), ("front", 150), ("mergebuild", 200), ("deque", 120)) if quick else
+                                  [(f, n) for f in FAULT_AFTER for n in (300, 1000)] + [("append", 3000), ("front", 3000), ("mergebuild", 3000)])):
+        out.append(fault_hist(principal[(5 * j + 6) % 28], fam, n, j % 2, k=7))
+    for t in range(36 if quick else 1500):
+        kind = t % 2
+        c = c03.gen_history(r2, r2.choice([6, 12, 20, 30]), kind, "native", 35)
+        if t % 4 == 0:
+            c = with_burns(r2, c)
+        if t % 3 == 0:
+            c = with_via(r2, c)
+        pool = principal if t % 2 == 0 else [e for e in evs if not is_reentrant(e)] if t % 4 == 1 else evs
+        out.append(with_events(r2, c, pool))
+    return out
+
+
 def only_kinds(cases, kinds=(0, 1)):
     return [c for c in cases if c["kind"] in kinds]
 
@@ -397,6 +620,8 @@ def generate(rng, tier):
     # split_by with non-monotone predicates
     for t in range(60 if quick else 1500):
         cases.append(splitby_any(r2, t % 2, r2.choice([3, 6, 10, 16, 30])))
+    # faults in user code inside a library call, callbacks that re-enter the library: fresh treaps afterwards (own stream of choices)
+    cases += fault_cases(rng.fork("c16-fault"), quick)
     return cases
 
 
@@ -428,20 +653,24 @@ def parse_shapes(toks, kind):
 
 
 def coq_term(c, obs, profile):
-    so = c03.split_obs(obs)
-    if so is None:
+    so = split_obs(obs)
+    bad = []
+    prios = case_prios(c, op_tokens(obs), bad)
+    if so is None or bad:
+        # the line panicked / hung, or an event's self-check failed (`!helper`, `!nested`) or its probe is not the draw the
+        # modelled stream has at that point: an observation that no model value equals and no specification accepts
         o = "None"
     else:
         shapes, _ = parse_shapes(so[1], c["kind"])
         colls = ["[%s]" % "; ".join(c03.z(int(v)) for v in t.partition(":")[2].split(",") if v != "") for t in so[2]]
         o = "(Some ([%s], [%s]))" % ("; ".join(shapes), "; ".join(colls))
     return "(%s %s %s %s %s)" % ("CaseA" if c["kind"] == 0 else "CaseB", coq_ops(c),
-                                 "[%s]" % "; ".join(c03.z(p) for p in case_prios(c)),
+                                 "[%s]" % "; ".join(c03.z(p) for p in prios),
                                  "true" if coq_native(c) else "false", o)
 
 
 def nontrivial(c, obs):
-    so = c03.split_obs(obs)
+    so = split_obs(obs)
     if so is None:
         return False
     _, sizes = parse_shapes(so[1], c["kind"])
@@ -449,7 +678,7 @@ def nontrivial(c, obs):
 
 
 def classify(c, obs):
-    so = c03.split_obs(obs)
+    so = split_obs(obs)
     big = 0
     if so is not None:
         _, sizes = parse_shapes(so[1], c["kind"])
@@ -588,6 +817,55 @@ def job_nodes(fam, args):
     return args[0] * args[1] if fam == "threads" else args[0]
 
 
+FAULT_TIMEOUT = 20     # seconds: a fault job builds a few thousand nodes; one that does not come back hangs in a lock
+
+
+def slice_hashes(off, n):
+    """(chain hash, multiset hash) of draws off .. off+n-1 of the modelled stream, as fam.rs computes them over the nodes
+    recorded after a fault event"""
+    c = m = 0
+    for p in stream(off + n)[off:off + n]:
+        c = (c * HK + p + 1) & M64
+        z = ((p + HK) * 0xBF58476D1CE4E5B9) & M64
+        m = (m + (z ^ (z >> 29))) & M64
+    return c, m
+
+
+def fault_jobs(tier):
+    """(n, family built afterwards, its parameter, event, burnt draws first)"""
+    jobs = [
+        (2000, "append", 0, ev("ins", "t", 8, 8, "update", "new"), 0),          # a worker dies inside insert_at, then sorted appends
+        (2000, "front", 0, ev("ins", "c", 8, 3, "update", "new"), 0),           # caught with catch_unwind on the same thread
+        (3000, "mergebuild", 1, ev("ins", "p", 5, 2, "update", "new", q=3000), 0),   # while another thread is creating nodes
+        (2000, "append", 0, ev("ins", "q", 8, 0, "update", "new", q=3000), 30918),
+        (2500, "deque", 0, ev("ins", "c", 1, 1, "update", "new"), 65535),
+        (1500, "middle", 0, ev("ins", "t", 8, 4, "push", "any", 2), 0),
+        (1500, "rotate", 0, ev("nod", "t", 8, 4, "update", "any", 3), 0),
+        (1500, "mergebuild", 0, ev("mrg", "c", 8, 1, "update", "any"), 0),
+        (1500, "randremove", 0, ev("mrg", "p", 8, 0, "push", "any", q=2000), 0),
+        (1500, "append", 0, ev("spl", "t", 8, 4, "push", "any"), 0),
+        (1500, "front", 0, ev("spb", "c", 8, 4, "pred", "any", 2), 0),
+        (1500, "appendremove", 0, ev("rem", "t", 8, 4, "update", "any", 2), 0),
+        (1500, "setbuild", 1, ev("col", "c", 8, 0, "push", "any"), 0),
+        (1500, "append", 0, ev("ins", "c", 8, 4, "size", "any"), 0),
+        # callbacks that re-enter the library (and return, or panic afterwards)
+        (1500, "append", 0, ev("ins", "c", 8, 4, "update", "new", 1, 1, 3), 0),
+        (1500, "front", 0, ev("ins", "t", 8, 4, "update", "new", 1, 2, 5), 0),
+        (1500, "mergebuild", 0, ev("ins", "c", 8, 4, "push", "any", 1, 5, 4), 0),
+        (1500, "append", 0, ev("ins", "c", 8, 8, "update", "new", 1, 3, 2), 0),
+        (1500, "deque", 0, ev("ins", "t", 8, 8, "update", "new", 1, 4, 6), 4097),
+        (1500, "append", 0, ev("mrg", "c", 8, 0, "update", "any", 1, 2, 5), 0),
+        (1500, "middle", 0, ev("rem", "t", 8, 3, "update", "any", 1, 1, 2), 0),
+        (1500, "append", 0, ev("spl", "q", 8, 3, "update", "any", 1, 4, 3, q=1000), 0),
+    ]
+    if tier != "quick":
+        evs = fault_events()
+        for j, e in enumerate(evs):
+            fam = ("append", "front", "mergebuild", "deque", "middle", "rotate", "appendremove", "setbuild", "randremove", "nodeapi", "splitany")[j % 11]
+            jobs.append(((20000, 3000, 50000)[j % 3], fam, j % 2, dict(e, q=e["q"] * 20), (0, 255, 80580, 999983)[j % 4]))
+    return jobs
+
+
 def search_jobs(tier):
     """(profile, family, [args], burn, exact_height?)"""
     jobs = []
@@ -652,7 +930,56 @@ def search_jobs(tier):
                 add(profile, ("append", "front", "middle", "deque")[k % 4], [(300, 5000, 40, 20000)[k % 4]], burn=off)
                 add(profile, "threads", [16 + k, 16 + (k * 7) % 50, k % 2, k % 2], burn=off)
             add(profile, "roundrobin", [5000, 7], burn=COLLISION[0])
+    for profile in ("debug", "release"):
+        for (n, fam, a, e, burn) in fault_jobs(tier):
+            add(profile, "fault", [n, fam, a, event_token(e)], burn=burn)
     return jobs
+
+
+def check_fault_job(job, rc, toks, payload, name, cov, viol):
+    """one `x fault` line: the fresh treap built AFTER the event must pass the executor's checks (heap order, sizes, born-with
+    priorities, height bound), its priorities must be the continuation of the one process-wide stream (the draws made before
+    and during the abnormal exit count) and its height the height of the Cartesian tree of that continuation.  Returns 1 if
+    the exact height was compared."""
+    profile, _, (n, after, a, etok), burn, _ = job
+    e = parse_event_token(etok)
+    about = ("after the event %s (%s) and %d burnt draws, family '%s' with %d nodes, %s build"
+             % (etok, "callback re-enters the library" if is_reentrant(e) else "callback panics", burn, after, n, profile))
+    if not (rc == 0 and toks[:1] == ["ok"] and len(toks) == 11):
+        viol.append({"name": "search-" + name,
+                     "payload": dict(payload, event=e, what="implementation-level search: a fresh treap built on the main thread AFTER a fault in user code inside a "
+                                     "library call (%s) violates the exact heap invariant, the subtree sizes, 'a node keeps the priority it was born with' or "
+                                     "height <= 3*floor(log2(n+1))+12 - or the line crashed, or did not come back within %d s (a user callback that re-enters "
+                                     "the library while the library still holds its generator lock)" % (about, FAULT_TIMEOUT))})
+        return 0
+    height, worst, checks, size, created, chain, multi = [int(t) for t in toks[3:10]]
+    dtot, good = event_draws(e, toks[10], burn)
+    off = burn + dtot
+    hc, hm = slice_hashes(off, n)
+    entry = {"final_height": height, "final_size": size, "bound": tight_bound(size), "worst_height_over_bound_permille": worst,
+             "checkpoints": checks, "event": toks[10], "draws_before_the_fresh_treap": off}
+    cov["search_" + name] = entry
+    if not good or created != n or chain != hc or multi != hm:
+        viol.append({"name": "search-stream-" + name, "kind": "broken-correspondence", "nofail": True,
+                     "payload": dict(payload, event=e, obligation="the priorities drawn after an abnormal exit of user code are the NEXT draws of the one process-wide generator (C16/Model.v lcg_prios)",
+                                     what="implementation-level search: %s - the probe drawn right after the event or the %d priorities of the fresh treap are not the "
+                                          "continuation of the modelled stream from draw %d on (the draws made before and during the event count); heap order and the "
+                                          "height bound held on this line" % (about, created, off - 1),
+                                     expected={"probe_is_draw": off - 1, "probe": stream(off)[off - 1], "chain_hash": hc, "multiset_hash": hm})})
+        return 0
+    entry["stream"] = "draws %d .. %d, in order" % (off, off + n - 1)
+    ids = inorder_ids(after, [n, a])
+    if ids is None:
+        return 0
+    draws = stream(off + n)
+    wh = (cart_height([draws[off + i] for i in ids]), len(ids))
+    entry["predicted_height"] = wh[0]
+    if (height, size) != wh:
+        viol.append({"name": "search-shape-" + name, "kind": "broken-correspondence", "nofail": True,
+                     "payload": dict(payload, event=e, obligation="final shape = Cartesian tree of the predicted in-order priorities (c16_cartesian)",
+                                     what="implementation-level search: %s ends with %d nodes at height %d; the Cartesian tree of the predicted in-order priority "
+                                          "sequence has %d nodes and height %d" % (about, size, height, wh[1], wh[0]))})
+    return 1
 
 
 def extra(ctx, known):
@@ -664,33 +991,38 @@ def extra(ctx, known):
         return "x %s %s%s" % (fam, " ".join(str(a) for a in args), " +%d" % burn if burn else "")
 
     def one(job):
+        limit = (FAULT_TIMEOUT if job[2][0] <= 5000 else 6 * FAULT_TIMEOUT) if job[1] == "fault" else 1800
         try:
             p = subprocess.run([ctx.bins[job[0]]], input=line_of(job) + "\n", stdout=subprocess.PIPE, stderr=subprocess.PIPE,
-                               text=True, timeout=1800)
+                               text=True, timeout=limit)
             return job, p.returncode, p.stdout.strip(), p.stderr[-500:]
         except subprocess.TimeoutExpired:
-            return job, -1, "timeout", ""
+            return job, -1, "timeout after %d s" % limit, ""
 
     with concurrent.futures.ThreadPoolExecutor(4) as ex:
         fut = ex.map(one, jobs)
         # meanwhile: the modelled stream, its hashes at every count a job needs, and the predicted final heights
-        counts = {job_nodes(f, a) + b for (_, f, a, b, _) in jobs if f != "doubling"}
+        counts = {job_nodes(f, a) + b for (_, f, a, b, _) in jobs if f not in ("doubling", "fault")}
         hashes = stream_hashes(counts)
         draws = stream(max(counts))
         want_h = {}
         for (_, fam, args, burn, exact) in jobs:
             key = (fam, tuple(args), burn)
-            if exact and fam != "doubling" and key not in want_h:
+            if exact and fam not in ("doubling", "fault") and key not in want_h:
                 ids = inorder_ids(fam, args)
                 want_h[key] = None if ids is None else (cart_height([draws[burn + i] for i in ids]), len(ids))
         results = list(fut)
 
-    cov, viol, n_exact, skipped = {}, [], 0, 0
+    cov, viol, n_exact, skipped, n_fault = {}, [], 0, 0, 0
     for job, rc, out, err in results:
         profile, fam, args, burn, exact = job
-        name = "%s_%s%s_%s" % (fam, "_".join(str(a) for a in args), "_burn%d" % burn if burn else "", profile)
+        name = "%s_%s%s_%s" % (fam, "_".join(str(a) for a in args).replace(":", "-"), "_burn%d" % burn if burn else "", profile)
         toks = out.split()
         payload = {"executor_line": line_of(job), "profile": profile, "executor_output": out, "returncode": rc, "stderr": err}
+        if fam == "fault":
+            n_fault += 1
+            n_exact += check_fault_job(job, rc, toks, payload, name, cov, viol)
+            continue
         if rc == 0 and toks[:3] == ["skip", "doubling", "noclone"]:
             skipped += 1
             cov["search_" + name] = {"skipped": "Treap<Item>: Clone does not exist"}
@@ -729,8 +1061,8 @@ def extra(ctx, known):
                              "payload": dict(payload, obligation="final shape = Cartesian tree of the predicted in-order priorities (c16_cartesian)",
                                              what="implementation-level search: family '%s' (args %s, %d burnt draws, %s build) ends with %d nodes at height %d; the Cartesian tree of the "
                                                   "predicted in-order priority sequence has %d nodes and height %d" % (fam, args, burn, profile, size, height, wh[1], wh[0]))})
-    ctx.say("[C16] search: %d families/sizes/profiles (%d with the exact height predicted, %d skipped: no Clone), %d violation(s)"
-            % (len(jobs), n_exact, skipped, len(viol)))
+    ctx.say("[C16] search: %d families/sizes/profiles (%d with the exact height predicted, %d after a fault in user code, %d skipped: no Clone), %d violation(s)"
+            % (len(jobs), n_exact, n_fault, skipped, len(viol)))
     if len(viol) > MAX_SEARCH_REPORTS:
         # one breaking change usually fails many jobs: report the concrete ones first, name the others in the last report
         viol.sort(key=lambda v: bool(v.get("nofail")))
